@@ -124,6 +124,7 @@ def apply_devices(w, c, victims, seed, keep_content=None, flippable=None):
     arr = w.arr
     bs = arr.bs
     ledger = {"data_blocks_hit": 0, "files_removed": 0, "parity_hit": 0, "victims": victims}
+    zeroed = set()
     for v in victims:
         dev, shape = v["dev"], v["shape"]
         if dev[0] == "d":
@@ -202,7 +203,14 @@ def apply_devices(w, c, victims, seed, keep_content=None, flippable=None):
             elif shape == "flip_some":
                 for pos in range(c.blockmax):
                     if rnd.random() < 0.5:
-                        corrupt_parity_block(arr, c, lev, pos, rnd, shape=rnd.choice(["bit", "block", "zero"]))
+                        # independent corruption only: two levels zeroed at the same stripe agree with each other (they are
+                        # the parity of all-zero data) and are not a detectable damage for a block without a recorded hash
+                        sh = rnd.choice(["bit", "block", "zero"])
+                        if sh == "zero" and pos in zeroed:
+                            sh = "block"
+                        if sh == "zero":
+                            zeroed.add(pos)
+                        corrupt_parity_block(arr, c, lev, pos, rnd, shape=sh)
             ledger["parity_hit"] += 1
     return ledger
 
